@@ -222,6 +222,32 @@ def _dtype_checks(ctx, aa, geom, shape, scales, origin, IJ, P, CONT, dt, pre, to
     got = gu.grid_scaled_2d_slim_from(grid_pixels_2d_slim=np.asarray(ut).astype("int"), **kw)
     _close2(ctx, got, CORNER, pre + "chain/util-centres-to-scaled", tol_sc64,
             "grid_scaled_2d_slim_from(grid_pixel_centres_2d_slim_from(p).astype(int)) vs top-left corners")
+    # (b2) memory layout of the supplied (k,2) coordinates: the same values as a Fortran-ordered array, a transposed
+    # stack np.array([y, x]).T, a row-stepped view and a column-stepped view give identical answers
+    if dt == "float64":
+        big_r = np.zeros((2 * k, 2)); big_r[::2] = P
+        big_c = np.zeros((k, 4)); big_c[:, ::2] = P
+        lay = [("fortran", np.asfortranarray(P.copy())), ("stacked-T", np.array([P[:, 0].copy(), P[:, 1].copy()]).T),
+               ("row-stepped", big_r[::2]), ("col-stepped", big_c[:, ::2])]
+        fns = [("grid_pixel_centres_2d_slim_from", "grid_scaled_2d_slim"), ("grid_pixel_indexes_2d_slim_from", "grid_scaled_2d_slim"),
+               ("grid_pixels_2d_slim_from", "grid_scaled_2d_slim"), ("grid_scaled_2d_slim_from", "grid_pixels_2d_slim")]
+        base = {fn: np.asarray(getattr(gu, fn)(**{arg: P.copy()}, **kw)) for fn, arg in fns}
+        gbase = {m_: np.asarray(getattr(geom, m_)(**{arg: aa.Grid2D(values=P.copy(), mask=mask1k)}).slim)
+                 for m_, arg in (("grid_pixel_centres_2d_from", "grid_scaled_2d"), ("grid_pixel_indexes_2d_from", "grid_scaled_2d"),
+                                 ("grid_pixels_2d_from", "grid_scaled_2d"), ("grid_scaled_2d_from", "grid_pixels_2d"))}
+        for lname, PL in lay:
+            assert np.array_equal(PL, P)
+            for fn, arg in fns:
+                ctx.equal(np.asarray(getattr(gu, fn)(**{arg: PL}, **kw)), base[fn], pre + "layout/util." + fn,
+                          "%s of a %s (k,2) array vs the C-ordered array of the same values" % (fn, lname))
+            for m_, arg in (("grid_pixel_centres_2d_from", "grid_scaled_2d"), ("grid_pixel_indexes_2d_from", "grid_scaled_2d"),
+                            ("grid_pixels_2d_from", "grid_scaled_2d"), ("grid_scaled_2d_from", "grid_pixels_2d")):
+                for cname, G_ in (("Grid2D", aa.Grid2D(values=PL, mask=mask1k)),):
+                    got_ = getattr(geom, m_)(**{arg: G_})
+                    got_ = np.asarray(got_.slim) if hasattr(got_, "slim") else np.asarray(got_)
+                    ctx.equal(got_.reshape(gbase[m_].shape), gbase[m_], pre + "layout/" + m_,
+                              "Geometry2D.%s(%s of a %s array) vs the C-ordered input" % (m_, cname, lname))
+            ctx.equal(np.asarray(PL), P, pre + "layout/input-changed", lname)
     rows = np.asarray(cen.slim)
     back = []
     for r in range(nsc):
